@@ -24,8 +24,9 @@ type concIn struct {
 }
 
 type concReq struct {
-	kind string
-	q    *ketoapi.RelationTuple
+	kind  string
+	q     *ketoapi.RelationTuple
+	depth int // max-depth of the request (0 = default)
 }
 
 func (e *storeEnv) concDo(r concReq) string {
@@ -33,7 +34,11 @@ func (e *storeEnv) concDo(r concReq) string {
 	ctx := context.Background()
 	switch r.kind {
 	case "rest_check":
-		code, body := e.do("A", e.rr, "GET", "/relation-tuples/check/openapi?"+r.q.ToURLQuery().Encode(), nil)
+		qs := r.q.ToURLQuery()
+		if r.depth > 0 {
+			qs.Set("max-depth", fmt.Sprint(r.depth))
+		}
+		code, body := e.do("A", e.rr, "GET", "/relation-tuples/check/openapi?"+qs.Encode(), nil)
 		return fmt.Sprintf("%d %s", code, body)
 	case "rest_batch":
 		b, _ := json.Marshal(map[string]any{"tuples": []*ketoapi.RelationTuple{r.q, r.q}})
@@ -60,7 +65,7 @@ func (e *storeEnv) concDo(r concReq) string {
 			q.Set("page_token", resp.NextPageToken)
 		}
 	case "grpc_check":
-		resp, err := e.ch.Check(ctx, &rts.CheckRequest{Tuple: r.q.ToProto()})
+		resp, err := e.ch.Check(ctx, &rts.CheckRequest{Tuple: r.q.ToProto(), MaxDepth: int32(r.depth)})
 		if err != nil {
 			return "err " + err.Error()
 		}
@@ -104,7 +109,18 @@ func famConc(t *testing.T) {
 			e := envFor(t, reg)
 			var reqs []concReq
 			for i := 0; i < in.Par; i++ {
-				reqs = append(reqs, concReq{kind: kinds[(i+round)%len(kinds)], q: in.Queries[(i*7+round)%len(in.Queries)].api()})
+				rq := concReq{kind: kinds[(i+round)%len(kinds)], q: in.Queries[(i*7+round)%len(in.Queries)].api()}
+				if round%2 == 1 {
+					// odd rounds: many requests for the SAME tuple with different max-depth values
+					rq.q = in.Queries[round%len(in.Queries)].api()
+					rq.depth = 1 + (i*3)%7
+					if i%2 == 0 {
+						rq.kind = "rest_check"
+					} else {
+						rq.kind = "grpc_check"
+					}
+				}
+				reqs = append(reqs, rq)
 			}
 			rec.start()
 			results := make([]string, len(reqs))
